@@ -283,6 +283,9 @@ def run (ctx):
     ctx.ob('R-ORDER', add, "the id given to the proxy is the id stored in the entry", bool(en) and ag.dominates(en[0], n), "eid generated before the proxy is built", add, 'D7')
   # returned id and stored entry
   ent = [v for t, v, s_, k in q.stores_in(add.node) if isinstance(t, ast.Name) and t.id == 'entry' and isinstance(v, ast.Tuple)]
+  if not ent:
+    # the tuple may be appended without a temporary
+    ent = [c.args[0] for c in calls_in(add.node) if call_name(c) == 'append' and c.args and isinstance(c.args[0], ast.Tuple) and len(c.args[0].elts) == 4]
   good = bool(ent) and [norm(e) for e in ent[0].elts] == ['priority', 'handler', 'once', 'eid']
   ctx.ob('R-AGREE', add, "stored entry is (priority, handler, once, eid)", good, norm(ent[0]) if ent else "entry not found", add, 'D2')
   rt = [r for r in q.returns_of(add.node)]
@@ -326,12 +329,14 @@ def run (ctx):
       if d_ is not None and repo.try_const(mod, e, None) is None: return d_
     return e
   lit = None; off = None
+  tests = {}
   for c in calls_in(ab.node):
-    if call_name(c) == 'startswith' and c.args and isinstance(c.func.value, ast.Name):
-      lit = slen(sresolve(c.args[0])); subj = c.func.value.id
+    if call_name(c) == 'startswith' and c.args and isinstance(c.func.value, ast.Name): tests.setdefault(c.func.value.id, []).append(slen(sresolve(c.args[0])))
   for n in ast.walk(ab.node):
-    if isinstance(n, ast.Subscript) and isinstance(n.slice, ast.Slice) and n.slice.lower is not None and n.slice.upper is None and isinstance(n.value, ast.Name) and lit is not None and n.value.id == subj:
-      off = ilen(n.slice.lower)
+    if isinstance(n, ast.Subscript) and isinstance(n.slice, ast.Slice) and n.slice.lower is not None and n.slice.upper is None and isinstance(n.value, ast.Name) and n.value.id in tests:
+      off = ilen(n.slice.lower); subj = n.value.id
+      lit = tests[subj][-1]
+      if off in tests[subj]: lit = off
   ctx.ob('R-AGREE', ab, "event name is what follows '_handle' + prefix + '_'", lit is not None and off == lit, "slice offset %s, tested prefix length %s (constant, {variable: count})" % (off, lit), ab, 'D8')
   byname = [n for n in ast.walk(add.node) if isinstance(n, ast.Compare) and '__name__' in norm(n.left) and norm(n.comparators[0]) == 'eventType']
   ctx.ob('R-AGREE', add, "by-name subscription compares the event class's __name__", bool(byname), norm(byname[0]) if byname else "no __name__ comparison", add, 'D8')
